@@ -72,12 +72,12 @@ FrameHdr(f) == IF f.hdr.trunc = 1 THEN f.hdr ELSE [f.hdr EXCEPT !.flen = FrameLe
 FrameEnc(f) == UslpHdrEnc(FrameHdr(f)) \o FrameBody(f)
 
 \* a frame the standard allows for the frame type
-FrameOk(f, ftype) ==
+FrameShapeOk(f, ftype) ==
   /\ UslpIdsOk(f.hdr)
   /\ (Has(f.ocf) => Len(Get(f.ocf)) = 4)
-  /\ FrameLenOf(f) <= 65536
   /\ IF ftype = "fixed" THEN f.hdr.trunc = 0 /\ FpRule(f.rule) /\ Has(f.ptr)
      ELSE VpRule(f.rule) /\ ~Has(f.ptr) /\ (f.hdr.trunc = 1 => ~Has(f.ocf))
+FrameOk(f, ftype) == FrameShapeOk(f, ftype) /\ FrameLenOf(f) <= 65536
 MatchingParams(f, ftype) ==
   [ftype |-> ftype, iz |-> IF Has(f.iz) THEN <<Len(Get(f.iz))>> ELSE <<>>,
    fecf |-> IF Has(f.fecf) THEN <<Len(Get(f.fecf))>> ELSE <<>>,
@@ -132,7 +132,9 @@ UslpExp(op, a) ==
     [] op = "uslp.htype" ->
          IF Len(a.octets) < 4 THEN ExpRej(<<"value">>) ELSE [trunc |-> a.octets[4] % 2]
     [] op = "uslp.frame.rt" ->
-         IF ~FrameOk(a.f, a.ftype) THEN ExpRej(<<"*">>)
+         IF ~FrameShapeOk(a.f, a.ftype) THEN ExpRej(<<"*">>)
+         \* a frame longer than the 16-bit length field can say: the statement names IDs, not lengths - not judged
+         ELSE IF FrameLenOf(a.f) > 65536 THEN ExpAny
          ELSE LET w == FrameEnc(a.f) IN
               [octets |-> w, len |-> Len(w), flen |-> IF a.f.hdr.trunc = 1 THEN -1 ELSE Len(w) - 1,
                dec |-> [a.f EXCEPT !.hdr = FrameHdr(a.f)], dlen |-> Len(w), repack |-> w]
